@@ -364,8 +364,8 @@ def huge_buffers(rep, binary, prop, fns=None):
 
 def len_sweep(rep, binary, prop, nchunks=12):
     """(growth) length-domain sweeps (MC_LenSweep): for every site of this property - an entry point and a skeleton whose
-    tied length fields are all set from one L - and every L of the outermost field's domain (a residue sample in the quick
-    tier, all of 0..65535 in the thorough one) TLC checks the site's law on the specification (a well-formed encoding is
+    tied length fields are all set from one L - and the L of the outermost field's domain (a residue sample in the quick
+    tier, every L up to 2048 and a denser sample beyond in the thorough one) TLC checks the site's law on the specification (a well-formed encoding is
     accepted at EVERY length and consumed up to its end; records up to the cap) and emits the case; the harness builds
     the real input and the crate's answer is compared in full."""
     d, res, cases = vlib.tlc_chunked(prop, "lensweep", "MC_LenSweep", nchunks=nchunks, env={"VERIF_PROP": prop}, timeout=3000)
